@@ -412,6 +412,25 @@ pub fn faults_part(report: &Report, depth: usize) {
             if dec != expect {
                 viol(report, "AnsCoder on a bounded reversed backend | symbols encoded before a failed write do not decode".into(), format!("history {:?} capacity {cap}: decoded {:?}", h, dec));
             }
+            // a temporary view on the reversed bounded sink (it writes the state words and takes them back): whether it
+            // succeeds or fails for lack of room, the coder is as before
+            {
+                let before = (c.bulk().0.pos(), c.state(), c.bulk().0.buf().clone());
+                let ok = c.get_compressed().is_ok();
+                n += 1;
+                if !ok { guard_failures += 1; }
+                let after = (c.bulk().0.pos(), c.state(), c.bulk().0.buf().clone());
+                let kept = |x: &(usize, u32, Vec<u8>)| x.2[x.0..].to_vec();
+                if after.0 != before.0 || after.1 != before.1 || kept(&after) != kept(&before) {
+                    viol(report, "AnsCoder::get_compressed on a bounded reversed backend | coder changed by the (failing) temporary write of the state words".into(),
+                        format!("history {:?} capacity {cap}: view {}: (pos {}, state {:x}) -> (pos {}, state {:x})", h, if ok { "succeeded" } else { "failed" }, before.0, before.1, after.0, after.1));
+                }
+                let mut d = AnsCoder::<u8, u32, Reverse<Cursor<u8, Vec<u8>>>>::from_raw_parts(Reverse(c.bulk().0.clone()), c.state());
+                let dec: Vec<Option<usize>> = (0..done).map(|_| d.decode_symbol(&cat).ok()).collect();
+                if dec != expect {
+                    viol(report, "AnsCoder::get_compressed on a bounded reversed backend | coder changed by the (failing) temporary write of the state words".into(), format!("history {:?} capacity {cap}: later decode {:?}", h, dec));
+                }
+            }
             if failed && done > 0 {
                 // a second refused write must be as harmless as the first, then room is made and encoding continues
                 let _ = c.encode_symbol(h[done], &cat);
